@@ -256,5 +256,5 @@ def ed25519_case(maxlen):
 
 def cases(tier):
     _probe_contracts()
-    k = 10 if tier == "quick" else 16
+    k = 10 if tier == "quick" else 13         # 16 exhausts a 600 s budget in the ECDSA case (measured)
     return [rsa_case(k + 4), ecdsa_case(k), ed25519_case(k), ecdsa_integers_case(), rsa_signature_bytes_case()]
